@@ -18,7 +18,7 @@ part "text": every string over {a, b, space, U+3042 (wide), U+0301 (zero width),
     through Cast(Text(s)); through single Text options (justify / overflow / no_wrap) the measurement
     clause is unchanged and the wrap clause compares line count and non-blank characters.
 
-Finding keys: "range/<clause>/<root kind>", "fit/<C01 blame key>" (e.g. "fit/table/leading"),
+Finding keys: "range/<clause>/<kind of the deepest node whose own measurement is out of range>", "fit/<C01 blame key>" (e.g. "fit/table/leading"),
 "text/min", "text/max", "text/max/blank-lines", "text/wrap-at-max", "crash/<Type>/<file>:<function>".
 """
 import itertools
@@ -93,6 +93,22 @@ def _range_problem(m, A):
     return None
 
 
+def _blame_range(d, A, ckind):
+    """deepest node on a path from the root whose own measurement at A is already out of range"""
+    node = d
+    while True:
+        for k in node[2]:
+            try:
+                bad = _range_problem(measure(k, A, ckind), A)
+            except Exception:  # noqa: BLE001
+                bad = None
+            if bad:
+                node = k
+                break
+        else:
+            return node
+
+
 def check_tree(d, aset, res, ckind="utf8", only_A=None):
     sm = max(1, struct_min(d))
     fits = {}       # v -> widest line when rendered at v
@@ -109,7 +125,8 @@ def check_tree(d, aset, res, ckind="utf8", only_A=None):
         res.evaluations += 1
         prob = _range_problem(m, A)
         if prob:
-            res.violate("range/%s/%s" % (prob, kind), case, "Measurement.get(.., %d) = %r" % (A, tuple(m)))
+            node = _blame_range(d, A, ckind)
+            res.violate("range/%s/%s" % (prob, node[0]), case, "Measurement.get(.., %d) = %r" % (A, tuple(m)))
             res.sig(("range", prob, kind))
             continue
         judged = []
